@@ -106,6 +106,31 @@ def unpackHHH (d : List Int) : Except Err (Int × Int × Int) :=
   | [a, b, c, d', e, f] => .ok (s16 a b, s16 c d', s16 e f)
   | _ => .error .StructError
 
+/-- an entry of the device list a backend module reports (backend.py): `{'name': …, 'is_input': …, 'is_output': …}` -/
+structure Device where
+  name : String
+  is_input : Bool
+  is_output : Bool
+  deriving DecidableEq, Repr, Inhabited
+
+/-- the keyword arguments of a call as the dict `**kwargs` binds them to: name ↦ None or a string, in insertion order -/
+abbrev KwArgs := List (String × Option String)
+
+/-- `name in kwargs` -/
+def kwHas (kw : KwArgs) (k : String) : Bool := kw.any (fun p => p.1 == k)
+
+/-- `kwargs[name] = value`: the entry is replaced where it stands, or appended -/
+def kwSet (kw : KwArgs) (k : String) (v : Option String) : KwArgs :=
+  if kwHas kw k then kw.map (fun p => if p.1 == k then (k, v) else p) else kw ++ [(k, v)]
+
+/-- `x or None` for None-or-a-string -/
+def optStrOrNone (s : Option String) : Option String :=
+  match s with | some x => if x.isEmpty then none else some x | none => none
+
+/-- truth value of None-or-a-string: None and '' are false -/
+def optStrTruthy (s : Option String) : Bool :=
+  match s with | some x => !x.isEmpty | none => false
+
 /-- the constructors of message objects that the file reader calls; their behaviour (including what they raise) is
     a parameter of the translated reader -/
 structure ReaderExt (M : Type) where
